@@ -198,6 +198,14 @@ func recursionGuarded(d *declInfo, call *ast.CallExpr) (bool, string) {
 				passed = true
 			}
 		}
+		// … or lives in a field of the receiver the recursion is invoked on again (w.seen, w.from(…))
+		if !passed {
+			if recv, _ := recvAndParam(d); recv != nil && f.m == recv {
+				if sel, ok := call.Fun.(*ast.SelectorExpr); ok && objOf(d.pkg, sel.X) == recv {
+					passed = true
+				}
+			}
+		}
 		if _, isParam := f.m.(*types.Var); isParam && passed {
 			// the recursive call works on the key that was just inserted
 			return true, fmt.Sprintf("visited-set: %s is tested absent in %s, inserted, and %s is passed on", f.key, f.mexpr, f.m.Name())
